@@ -28,11 +28,13 @@ struct Case {
     double lmin_f = 0.5, cut_rep_f = 0.3, cut_adh_f = 0.3;  // in units of the typical edge length
     int normals_state = 1;                                    // 0 = iteration-0 state (normals zero), 1 = computed
     double max_curv = 1e300;
+    unsigned rough = 0;         // != 0: every cell first undergoes real edge collapses / splits that leave unused node and face slots
     double far[3] = {0, 0, 0};  // extra translation of the whole tissue in units of the typical edge ("wherever the tissue is placed")
     void write(vf::Writer& w) const {
         tissue.write(w);
         w.d(lmin_f), w.d(cut_rep_f), w.d(cut_adh_f), w.i(normals_state), w.d(max_curv);
         w.d(far[0]), w.d(far[1]), w.d(far[2]);
+        w.u(rough);
         w.nl();
     }
     static Case read(vf::Reader& r) {
@@ -40,6 +42,7 @@ struct Case {
         c.tissue = tg::Tissue::read(r);
         c.lmin_f = r.d(), c.cut_rep_f = r.d(), c.cut_adh_f = r.d(), c.normals_state = (int)r.i(), c.max_curv = r.d();
         if (r.more()) c.far[0] = r.d(), c.far[1] = r.d(), c.far[2] = r.d();
+        if (r.more()) c.rough = (unsigned)r.u();
         return c;
     }
 };
@@ -58,6 +61,7 @@ static rc::Gen<Case> genCase() {
         // placements go much further out than elsewhere: up to 1e7 edge lengths, where a double still resolves 1e-9 edge
         const double mag = *rc::gen::element(0., 0., 1e4, 1e5, 1e6, 1e7);
         for (double& v : c.far) v = mag == 0 ? 0. : (*uniform(-1, 1)) * mag;
+        if (*irange(0, 1)) c.rough = (unsigned)*irange(1, 1 << 20);
         return c;
     });
 }
@@ -196,6 +200,11 @@ static std::string run(const Case& k, vf::Ctx& ctx) {
         b = tg::build(placed, 10., 1., &scope);
     } catch (const std::exception& e) {
         return std::string("tissue generator produced a cell the code rejects: ") + e.what();
+    }
+    if (k.rough) {
+        int done = 0;
+        for (size_t i = 0; i < b.cells.size(); i++) done += ct::leave_free_slots(b.cells[i], 3 + (int)((k.rough >> (i % 8)) % 6), k.rough + 7919 * i);
+        if (done) ctx.count("tissue_of_cells_with_unused_slots");
     }
     global_simulation_parameters sp;
     sp.min_edge_len_ = k.lmin_f * k.tissue.edge;
